@@ -153,6 +153,31 @@ def _harness_exec(args, timeout, e):
         first = done + 1
 
 
+def tlaps(ctx, module, timeout=900, threads=4):
+    """Check the TLAPS proofs of spec/proofs/<module>.tla (SMT back end).  A proof that does not go through is reported
+    as DRIFT (it says something about the proof script or the prover, not about the code) and recorded in the evidence."""
+    d = os.path.join(SPEC, "proofs")
+    t = time.time()
+    rec = {"module": "proofs/" + module, "tool": "tlapm"}
+    try:
+        p = subprocess.run(["timeout", str(timeout), "tlapm", "--threads", str(threads), module + ".tla"], cwd=d,
+                           stdout=subprocess.PIPE, stderr=subprocess.STDOUT, text=True)
+        out = p.stdout
+    except OSError as e:
+        out = "tlapm not available: %s" % e
+    m = re.search(r"All (\d+) obligations proved", out)
+    rec["wall_s"] = round(time.time() - t, 1)
+    if m:
+        rec["obligations_proved"] = int(m.group(1))
+        log("[proof] %s: all %s obligations proved, %.1fs" % (module, m.group(1), rec["wall_s"]))
+    else:
+        f = re.search(r"(\d+)/(\d+) obligations failed", out)
+        rec["obligations_failed"] = f.group(0) if f else "tlapm did not finish"
+        ctx.drift.append("TLAPS proofs of %s did not go through (%s)" % (module, rec["obligations_failed"]))
+    ctx.extra.setdefault("proofs", []).append(rec)
+    return rec
+
+
 def read_ndjson(path):
     out = []
     with open(path) as f:
